@@ -193,6 +193,8 @@ func Run(r *common.Run) error {
 	runWake(r, false)
 	r.Mark("case wake 1")
 	runWake(r, true)
+	r.Mark("case wake 2")
+	runStale(r)
 	r.Mark("case open")
 	runSend(r, false, true, 0, nil, "send-corpus")
 	runSend(r, false, false, 16, nil, "send-corpus")
@@ -211,7 +213,7 @@ func Run(r *common.Run) error {
 		runSend(r, true, c.acked, c.bs, c.ops, "send-corpus")
 	}
 	nR := r.Pick(500, 8000)
-	for i := 0; i < nR; i++ {
+	for i := 0; i < nR && len(r.Failures) < 60; i++ {
 		r.Mark("case recv-random %d", i)
 		mb, ops := randRecv(r.Rnd)
 		carrier := []string{"iq", "message"}[r.Rnd.Intn(2)]
@@ -221,7 +223,7 @@ func Run(r *common.Run) error {
 		runRecv(r, mb, carrier, ops, "recv-random")
 	}
 	nS := r.Pick(400, 6000)
-	for i := 0; i < nS; i++ {
+	for i := 0; i < nS && len(r.Failures) < 60; i++ {
 		r.Mark("case send-random %d", i)
 		acked, bs, ops := randSend(r.Rnd, true)
 		runSend(r, true, acked, bs, ops, "send-random")
